@@ -44,6 +44,7 @@ import (
 	"github.com/icon-project/goloop/service/platform/basic"
 	"github.com/icon-project/goloop/service/txresult"
 	"github.com/icon-project/goloop/test"
+	"golang.org/x/crypto/sha3"
 )
 
 func init() {
@@ -783,12 +784,54 @@ func c08Gen(g *Gen) {
 		cd.b.PatchTransactions = c08CloneBss(cd.b.PatchTransactions)
 		cd.b.NormalTransactions = c08CloneBss(cd.b.NormalTransactions)
 		switch k := g.Intn(100); {
-		case k < 55: // structured mutations
+		case k < 52: // structured mutations
 			for n := g.Pick(1, 1, 1, 2, 2, 3); n > 0; n-- {
 				c.mutate(cd)
 			}
 			c.register(cd)
 			emit(cd.encode(), "")
+		case k < 62: // swaps that touch ONLY the BTP digest of the body
+			var withD, plain []*c08Block
+			for _, x := range c.blocks {
+				if x.bf.BTPDigest != nil {
+					withD = append(withD, x)
+				} else {
+					plain = append(plain, x)
+				}
+			}
+			tag := "swap"
+			switch v := g.Intn(4); {
+			case v <= 1 && len(withD) > 0: // one bit inside a 32-byte section hash / messages root
+				b = withD[g.Intn(len(withD))]
+				cd = &c08Cand{h: *b.hf, b: *b.bf}
+				d := c08Clone(cd.b.BTPDigest)
+				var at []int
+				for i := 0; i+33 <= len(d); i++ {
+					if d[i] == 0xa0 {
+						at = append(at, i)
+					}
+				}
+				if len(at) > 0 {
+					d[at[g.Intn(len(at))]+1+g.Intn(32)] ^= byte(1 << uint(g.Intn(8)))
+				}
+				cd.b.BTPDigest = d
+			case v == 2 && len(plain) > 0: // a non-nil digest without networks under a header without BTP data
+				b = plain[g.Intn(len(plain))]
+				cd = &c08Cand{h: *b.hf, b: *b.bf}
+				cd.b.BTPDigest = []byte{0xc1, 0xc0}
+			case len(withD) > 1: // digest of another BTP block (same network ids, same NS filter)
+				b = withD[g.Intn(len(withD))]
+				o := withD[g.Intn(len(withD))]
+				cd = &c08Cand{h: *b.hf, b: *b.bf}
+				cd.b.BTPDigest = c08Clone(o.bf.BTPDigest)
+				if bytes.Equal(o.bf.BTPDigest, b.bf.BTPDigest) {
+					tag = ""
+				}
+			default:
+				tag = ""
+			}
+			c.register(cd)
+			emit(cd.encode(), tag)
 		case k < 65: // body of another block under this header
 			o := c.pickBlock()
 			c.register(cd)
@@ -965,12 +1008,25 @@ func c08Dec(in []byte, swap bool, o *Oracle) (out string) {
 	_ = rest
 	if uerr == nil {
 		o.Check(bytes.Equal(hf.VotesHash, bd.Votes().Hash()), "votes-not-bound", "votes hash %x differs from the header's %x", bd.Votes().Hash(), hf.VotesHash)
+		vh := sha3.Sum256(bd.Votes().Bytes())
+		o.Check(bytes.Equal(hf.VotesHash, vh[:]), "votes-bytes-not-bound", "sha3 of the decoded votes bytes differs from the header's votes hash")
 		o.Check(bytes.Equal(hf.NormalTransactionsHash, bd.NormalTransactions().Hash()), "normal-txs-not-bound", "normal tx list hash differs from the header's")
 		o.Check(bytes.Equal(hf.PatchTransactionsHash, bd.PatchTransactions().Hash()), "patch-txs-not-bound", "patch tx list hash differs from the header's")
 		dg, derr := bd.BTPDigest()
 		dh, rerr := service.BTPDigestHashFromResult(hf.Result)
 		if o.Check(derr == nil && rerr == nil, "digest-unavailable", "digest of a decoded block: %v %v", derr, rerr); derr == nil && rerr == nil {
 			o.Check(bytes.Equal(dh, dg.Hash()), "digest-not-bound", "BTP digest hash %x differs from the result's %x", dg.Hash(), dh)
+			// do not trust the digest object's own Hash(): hash the decoded digest bytes here
+			var own []byte
+			if dbs := dg.Bytes(); dbs != nil {
+				h := sha3.Sum256(dbs)
+				own = h[:]
+			}
+			o.Check(bytes.Equal(dh, own), "btp-digest-not-bound",
+				"sha3 of the decoded block's BTP digest bytes is %x, the header's result commits to %x", own, dh)
+			if dg.Bytes() != nil {
+				o.Count("ok-digest-rehashed")
+			}
 			o.Check(bytes.Equal(hf.NSFilter, dg.NetworkSectionFilter().Bytes()), "nsfilter-not-bound", "NS filter differs from the digest's")
 		}
 		o.Check(hf.Height == bd.Height() && hf.Timestamp == bd.Timestamp() && bytes.Equal(hf.PrevID, bd.PrevID()) &&
